@@ -18,6 +18,10 @@ func calCapacity(c, l int) (int, bool) {
 	if c <= 64 {
 		return c, false
 	}
+	// 空切片按最稀疏的情况处理，避免下面 c/l 除零
+	if l == 0 {
+		l = 1
+	}
 	if c > 2048 && (c/l >= 2) {
 		factor := 0.625
 		return int(float32(c) * float32(factor)), true
